@@ -1,9 +1,71 @@
 """C09 — ownership invariants survive any API history; bad arguments never crash (DESIGN §3 C09)."""
-import os
+import glob, json, os, re, subprocess
 import sup
 
 QUICK = ['variables', 'forest', 'units', 'resets', 'equivalences', 'equivalence-ids', 'equivalence-lifetime']
 THOROUGH = QUICK + ['resets-full', 'equivalence-lifetime4']
+
+
+# ---------------------------------------------------------------------------------------------------------------
+# Header cross-check: every public method of src/api/libcellml/*.h that takes an entity (…Ptr), an index (size_t) or a
+# name used for a lookup must appear in the harness's entry-point table; otherwise the check is incomplete (exit 2).
+DERIVED = {  # a method declared on a base class is covered when an entry exists for one of these concrete classes
+    'ComponentEntity': ['Model', 'Component'], 'Entity': ['Model', 'Component', 'Variable', 'Units', 'Reset', 'ImportSource'],
+    'ParentedEntity': ['Model', 'Component', 'Variable', 'Reset', 'Units'], 'ImportedEntity': ['Component', 'Units'], 'NamedEntity': ['Model', 'Component', 'Variable', 'Units'],
+}
+CONTENT_SETTER = re.compile(r'^(set|append|add|create|parse)')  # string-only parameters of these carry content, they look nothing up
+
+
+def header_methods():
+    found = {}
+    for f in sorted(glob.glob(os.path.join(sup.REPO, 'src/api/libcellml/*.h'))):
+        s = open(f).read()
+        s = re.sub(r'/\*.*?\*/', '', s, flags=re.S)
+        s = re.sub(r'//[^\n]*', '', s)
+        for cm in re.finditer(r'class\s+LIBCELLML_EXPORT\s+(\w+)[^{;]*\{(.*?)\n\};', s, flags=re.S):
+            cls, body = cm.group(1), cm.group(2)
+            parts = re.split(r'\n\s*(public|private|protected):', body)
+            segs = [('private', parts[0])] + [(parts[i], parts[i + 1]) for i in range(1, len(parts), 2)]
+            for vis, text in segs:
+                if vis != 'public':
+                    continue
+                for m in re.finditer(r'([\w:<>\s\*&]+?)\b(\w+)\s*\(([^()]*)\)\s*(const)?\s*(noexcept)?\s*(override)?\s*(=\s*\w+)?\s*;', text):
+                    name, params = m.group(2), m.group(3)
+                    if name == cls or not params.strip() or '= delete' in m.group(0) or 'operator' in m.group(1):
+                        continue
+                    kinds = set()
+                    for p in params.split(','):
+                        p = ' '.join(p.split())
+                        if re.search(r'\w+Ptr\b', p):
+                            kinds.add('ptr')
+                        elif re.search(r'\bsize_t\b', p):
+                            kinds.add('index')
+                        elif 'std::string' in p and not re.match(r'std::string &\w+$', p):
+                            kinds.add('string')
+                    if kinds & {'ptr', 'index'} or ('string' in kinds and not CONTENT_SETTER.match(name)):
+                        found.setdefault('%s::%s' % (cls, name), set()).update(kinds)
+    return found
+
+
+def cross_check(c):
+    exe = sup.binpath('asan', 'c09')
+    names = json.loads(subprocess.run([exe, 'entries'], capture_output=True, text=True, check=True).stdout)
+    covered = set()
+    for n in names:
+        m = re.match(r'(\w+)(?:\([^)]*\))?::([\w/]+)', n)
+        if m:
+            for meth in m.group(2).split('/'):
+                covered.add('%s::%s' % (m.group(1), meth))
+    required = header_methods()
+    missing = []
+    for k in sorted(required):
+        cls, meth = k.split('::')
+        if not any('%s::%s' % (x, meth) in covered for x in [cls] + DERIVED.get(cls, [])):
+            missing.append(k)
+    c.counters['header_methods_with_entity_index_or_name_parameter'] = len(required)
+    c.counters['entry_points_in_table'] = len(names)
+    if missing:
+        raise sup.HarnessError('incomplete coverage: public methods with a pointer/index/name parameter that are missing from the C09 entry-point table: ' + ', '.join(missing))
 
 
 def main(tier):
@@ -12,6 +74,7 @@ def main(tier):
     quick = tier == 'quick'
     c.set_deadline(600 if quick else 2400)
     c.build('asan', ['c09'])
+    cross_check(c)
     for m in (QUICK if quick else THOROUGH):
         c.run_family('asan', 'c09', m, per_case_timeout=1500, nsamples=1)
     c.run_family('asan', 'c09', 'badargs', per_case_timeout=20)
